@@ -380,6 +380,7 @@ def run_crosshair(prop, job, native=False):
                 # solver-enumerated paths that run natively
                 job.extra['first_attempt'] = job.reason[:300]
                 job.cex = None
+                job.reason = ''
                 run_crosshair(prop, job, native=True)
                 job.extra['native_paths'] = True
     return job
